@@ -16,7 +16,7 @@
    19 slot rbuf  20 slot wbuf  21 slot rvec  22 slot wvec   sequential (cursor) forms, AsyncFd
    23 p pipe  24 p wbuf write  25 p rbuf read  26 p rvec read_vectored  27 p wvec write_vectored
    28 p close sender  29 p close receiver
-   30 slot off k              read_at into a Vec of capacity 2^32 + k
+   30 slot off k              read_at into a Vec of capacity 2^32 + k (k may itself be >= 2^32)
    31 path n bytes            fs::write       32 path   fs::read
    rbuf = [shape; len; cap; a; b]   wbuf = [shape; extra; a; b; n; bytes..]
    shape 0 Vec, 1 .slice(a..), 2 .slice(a..b), 3 .uninit()
